@@ -438,7 +438,12 @@ Definition disc_kind_ok (ik : bool) (t : schema) : bool :=
   | SString _ _ _ | SEnumStr _ _ => negb ik
   | _ => false
   end.
+(* a member that is a reference into ANOTHER namespace is not linked by this step: the one-of leaves it alone and
+   checks it when that namespace is applied (oneof.go validateSubtypeDiscriminatorInlineFields: !ObjectReady -> continue) *)
+Definition member_pending (m : schema) : bool :=
+  match m with SRef _ ns _ => negb (String.eqb ns "") | _ => false end.
 Definition member_ok (objs : objtab) (ik : bool) (field : string) (inlined : bool) (m : schema) : bool :=
+  member_pending m ||
   match member_props objs m with
   | None => false
   | Some ps =>
@@ -605,6 +610,7 @@ Definition wf_member_props (e : env) (m : schema) : option (list (string * prope
   | _ => None
   end.
 Definition wf_member (e : env) (ik : bool) (field : string) (inlined : bool) (m : schema) : bool :=
+  member_pending m ||
   match wf_member_props e m with
   | None => false
   | Some ps =>
